@@ -690,8 +690,8 @@ func raceReports(id, stderr string) []hc.Violation {
 						// the application's own code touching what an API call handed out (a slice
 						// or map that aliases the screen's internal state)
 						site = "application(result of an API call)"
-					} else if strings.HasPrefix(l, "main.(*stty).Write") {
-						continue // the fake terminal reading the bytes handed to Tty.Write: the caller decides
+					} else if strings.HasPrefix(l, "main.(*stty).Write") || strings.HasPrefix(l, "main.(*stty).Read") {
+						continue // the fake terminal reading the bytes handed to Tty.Write / filling the buffer handed to Tty.Read: the caller decides
 					} else if !(strings.HasPrefix(l, "main.") || strings.HasPrefix(l, "verif/") || strings.Contains(l, "/verifrt.") || strings.Contains(l, "/vsync.") || strings.Contains(l, "/vtime.") || strings.HasPrefix(l, "github.com/gdamore/tcell/v2.Verif")) {
 						// an access inside a library the screen calls (x/text encoder, bytes.Buffer,
 						// runewidth ...): the tcell function that made the call decides
